@@ -124,6 +124,7 @@ func (w *World) afterBlock(b *DecidedBlock) {
 	w.oracleRelayer(bi)   // C01, C02, C16
 	w.oracleBitcoin(bi)   // C03, C05, C17, C20
 	w.oracleAdmission(bi) // C10
+	w.oracleQueues(bi)    // C06 (after every oracle has recorded what this block owes)
 	w.abstractState(bi)
 	m.Prev = snap
 	w.Stats.SimTime = w.Cmt.Time.Sub(simEpoch())
